@@ -144,6 +144,7 @@ func cmdCheck(args []string) int {
 	totalViol := 0
 	var knownLines, violLines, inconcl []string
 	replayed := 0
+	crossRuns := 0
 	for _, hs := range spec.Harnesses {
 		if *only != "" && hs.Name != *only {
 			continue
@@ -187,6 +188,20 @@ func cmdCheck(args []string) int {
 		if *verbose {
 			fmt.Fprintf(os.Stderr, "[%s] paths=%d outcomes=%v asserts=%d proved=%d unknown=%d queries=%d solver=%.1fs wall=%.1fs\n",
 				hs.Name, res.Paths, res.Outcomes, res.Asserts, res.Proved, res.Unknowns, res.Solver.Queries, res.Solver.Time.Seconds(), res.Wall.Seconds())
+		}
+		if *tier == "thorough" && len(res.Violations) == 0 && len(res.Inconclusive) == 0 {
+			for _, alt := range hs.Cross {
+				ex2 := &Explorer{prog: prog, fn: fn, spec: hs, cfg: cfg, workers: *workers, solverBin: alt,
+					rlimit: 0, tmoMs: tmo, seed: seed, knownLabels: ex.knownLabels}
+				r2 := ex2.Run()
+				crossRuns++
+				if r2.Paths != res.Paths || len(r2.Violations) != 0 || len(r2.Inconclusive) != 0 || r2.Proved != res.Proved {
+					inconcl = append(inconcl, fmt.Sprintf("%s: solver %s disagrees with %s (paths %d vs %d, proved %d vs %d, violations %d, inconclusive %v)",
+						hs.Name, alt, *solver, r2.Paths, res.Paths, r2.Proved, res.Proved, len(r2.Violations), r2.Inconclusive))
+				} else if *verbose {
+					fmt.Fprintf(os.Stderr, "[%s] cross-checked with %s: same %d paths, %d assertion queries proved\n", hs.Name, alt, r2.Paths, r2.Proved)
+				}
+			}
 		}
 		// dedupe violations by label
 		byLabel := map[string]*Violation{}
@@ -260,7 +275,7 @@ func cmdCheck(args []string) int {
 	}
 	wall := time.Since(start)
 	if !*noEvidence && *only == "" {
-		writeEvidence(spec, *tier, seed, results, totalViol, len(knownLines), replayed, inconcl, wall, loadTime, *solver)
+		writeEvidence(spec, *tier, seed, results, totalViol, len(knownLines), replayed, inconcl, wall, loadTime, *solver, crossRuns)
 	}
 	if exit == 0 {
 		np := 0
@@ -403,7 +418,7 @@ func cmdReplay(args []string) int {
 	return 0
 }
 
-func writeEvidence(spec *CheckSpec, tier string, seed int64, results []*HarnessResult, viol, knownN, replayed int, inconcl []string, wall, load time.Duration, solver string) {
+func writeEvidence(spec *CheckSpec, tier string, seed int64, results []*HarnessResult, viol, knownN, replayed int, inconcl []string, wall, load time.Duration, solver string, crossRuns int) {
 	paths, decisions, asserts, proved, queries, unknown := 0, 0, 0, 0, 0, 0
 	var solverTime time.Duration
 	funcs := map[string]bool{}
@@ -492,6 +507,7 @@ func writeEvidence(spec *CheckSpec, tier string, seed int64, results []*HarnessR
 		"known_findings_reported":       knownN,
 		"inconclusive":                  inconcl,
 		"cover_labels_hit":              covers,
+		"cross_solver_reruns":           crossRuns,
 	}
 	ev := map[string]interface{}{
 		"property_id": spec.Property,
